@@ -161,6 +161,7 @@ func (c *persistComp) Exec(t []string) (extra []string, out string, eff bool) {
 				resolved = append(resolved, strings.Join(append(toks, x...), "+"))
 			}
 		}
+		content := c.dump() // what the store holds before its format is rewound
 		c.storeComp.Close()
 		v, _ := strconv.Atoi(get("version"))
 		db, err := badger.Open(diskOpts(c.dir))
@@ -182,7 +183,7 @@ func (c *persistComp) Exec(t []string) (extra []string, out string, eff bool) {
 				t[i] = "ops=" + strings.Join(resolved, ";")
 			}
 		}
-		return nil, "ok", true
+		return []string{"content=" + content}, "ok", true
 	case "open":
 		return nil, c.open(), true
 	case "reopen":
